@@ -49,7 +49,27 @@ pub fn diff_obs(a: &crate::observe::Obs, b: &crate::observe::Obs) -> String {
 
 pub fn check(tape: &[u32]) -> CheckResult {
     let mut t = Tape::new(tape);
-    let s = build_sprite(&mut t, &cfg());
+    let mut s = build_sprite(&mut t, &cfg());
+    if t.chance(1, 60) {
+        // one large but highly compressible cel: its chunk is > 1 MiB stored raw / at level 0 and tiny at level 9
+        use crate::model::*;
+        let (w, h) = (500 + t.below(200) as u16, 450 + t.below(150) as u16);
+        let bpp = s.fmt.bpp();
+        let pal: Vec<u8> = s.effective_palette().map(|m| m.keys().filter(|k| **k < 256).map(|k| *k as u8).collect()).unwrap_or_default();
+        if s.fmt != Fmt::Indexed || !pal.is_empty() {
+            let mut pixels = Vec::with_capacity(w as usize * h as usize * bpp);
+            for i in 0..w as usize * h as usize {
+                match s.fmt {
+                    Fmt::Rgba => pixels.extend_from_slice(&[(i / 4096) as u8, 7, 200, 255]),
+                    Fmt::Gray => pixels.extend_from_slice(&[(i / 8192) as u8, 255]),
+                    Fmt::Indexed => pixels.push(pal[(i / 10000) % pal.len()]),
+                }
+            }
+            let li = s.layers.len() as u16;
+            s.layers.push(Layer { flags: 3, kind: LayerKind::Image, level: 0, blend: 0, opacity: 255, name: "large".into(), user_data: None });
+            s.frames[0].cels.push(Cel { layer: li, x: -5, y: -7, opacity: 255, content: CelContent::Image { w, h, pixels }, user_data: None });
+        }
+    }
     let pa = build_plan(&mut t);
     let pb = build_plan(&mut t);
     let ea = encode(&s, &pa);
